@@ -2215,3 +2215,88 @@ def check_C16(tier, seed):
     return res.finish(gate)
 
 CHECKS['C16'] = check_C16
+
+# ---------------------------------------------------------------- C18
+def check_C18(tier, seed):
+    res = Result('C18', tier, seed); res.pending = []
+    gate = proof_gate('C18')
+    core.build_model(); core.build_impl(); core.build_impl(release=True)
+    N = tier_n(tier, 120000, 1000000)
+    N2 = tier_n(tier, 5000, 40000)        # operations that are quadratic in time (push walks from the head)
+    def build(var, n, item='i'): return "(setq %s (let ((l nil)) (dotimes (i %d) (setq l (cons %s l))) l)) (length %s)" % (var, n, item, var)
+    ops = [
+        ('build', build('big', N)), ('build2', build('big2', N)),
+        ('length', '(length big)'), ('nth', '(nth %d big)' % (N - 1)), ('nthcdr', '(car (nthcdr %d big))' % (N - 1)), ('last', '(car (last big))'), ('last-n', '(length (last big %d))' % (N - 5)),
+        ('equal', '(equal big big2)'), ('equal-cons', "(equal (cons 1 big) (cons 1 big2))"), ('equal-differ', "(equal big (cdr big2))"),
+        ('print', '(length (prin1-to-string big))'), ('format-s', '(length (format "%s" big))'), ('format-S', '(length (format "%S" (list big)))'),
+        ('error-int', '(+ 1 big)'), ('error-float', '(+ 1.5 big)'), ('error-cmp', '(< 1 big)'), ('error-nth', '(nth big big)'), ('error-format-d', '(format "%d" big)'), ('error-format-f', '(format "%f" big)'),
+        ('error-expt', '(expt big 2)'), ('error-concat', '(concat big)'), ('error-funcall', '(funcall big)'), ('error-1+', '(1+ big)'), ('error-mod', '(mod big 2)'), ('error-string<', '(string< big "a")'),
+        ('error-max', '(max big)'), ('error-setq-const', '(set big 1)'), ('error-intern', '(intern big)'),
+        ('dolist', '(let ((n 0)) (dolist (e big) (setq n (1+ n))) n)'), ('seq-reduce', "(seq-reduce '+ big 0)"), ('seq-find', "(seq-find (lambda (e) (< e 0)) big 'none)"),
+        ('sort', "(length (sort big '<))"), ('sort-gt', "(car (sort big '>))"),
+        ('cons-share', '(length (cons 0 big))'), ('list-of', '(length (list big big))'),
+        ('build-alist', build('al', N, "(cons i i)")), ('assoc-miss', "(assoc 'missing al)"), ('assoc-last', "(assoc 0 al)"), ('alist-get', "(alist-get -1 al 'dflt)"),
+        ('assoc-testfn', "(assoc 0 al (lambda (a b) (equal a b)))"),
+        ('build-plist', "(setq pl (let ((l nil)) (dotimes (i %d) (setq l (cons 'k (cons i l)))) l)) (length pl)" % N), ('plist-get', "(plist-get pl 'missing)"),
+        ('drop-alist', '(setq al nil)'), ('drop-plist', '(setq pl nil)'),
+        ('build-nested', build('nest', N, "(list i)")), ('drop-nested', '(setq nest nil)'),
+        ('build-small', build('sm', N2)), ('append', "(length (append sm '(1)))"), ('append3', "(length (append sm sm nil))"), ('mapcar', "(length (mapcar '1+ sm))"),
+        ('seq-filter', "(length (seq-filter (lambda (e) t) sm))"), ('splice', '(length `(0 ,@sm 1))'), ('eval-quoted', "(length (eval (list 'quote sm)))"),
+        ('macroexpand', "(length (macroexpand (cons 'list sm)))"), ('list-call', "(length (eval (cons 'list sm)))"), ('plus-call', "(eval (cons '+ sm))"),
+        ('read-long', "(length '(" + ' '.join(['1'] * N2) + '))'), ('read-long-dotted', "(car (last '(" + ' '.join(['1'] * N2) + ' . 2)))'),
+        ('closure-body', "(funcall (lambda () (length sm)))"),
+        ('drop', '(setq big nil)'), ('drop2', '(setq big2 nil)'), ('drop-small', '(setq sm nil)'),
+        ('tailrec-build', "(defun mk (n acc) (if (< n 1) acc (mk (- n 1) (cons n acc)))) (length (mk %d nil))" % N),
+    ]
+    c = Case('long')
+    for name, t in ops: c.eval(t)
+    nv = 0
+    total = 0
+    distinct = set()
+    for binary, label in ((core.TLIMPL_RELEASE, 'release'), (core.TLIMPL_DEBUG, 'debug')):
+        # one process per operation group so that an overflow is attributed and the sweep goes on
+        out = core.run_side(binary, [c], env={'TL_STACK_MB': '2'}, announce=True, timeout=1500)
+        ls = out.get('long', [])
+        done = 0
+        for k, l in enumerate(ls):
+            idx, kind, payload, _ = core.parse_line(l)
+            total += 1
+            name = ops[idx][0] if idx < len(ops) else '?'
+            distinct.add((name, label, kind))
+            if kind in ('A', 'H', 'P'):
+                nv += 1
+                if nv <= 8:
+                    res.violation('stack', {'operation': name, 'program': ops[idx][1][:300], 'profile': label, 'elements': N if 'sm' not in ops[idx][1] else N2,
+                                            'why': 'list operation exhausted a 2 MiB stack (abort/stack overflow/hang) or panicked', 'line': l[:200]})
+                # continue with the remaining operations in a fresh process (state rebuilt)
+                rest = Case('long')
+                for nm, t in ops[:2] + ops[idx + 1:]: rest.eval(t)
+                out2 = core.run_side(binary, [rest], env={'TL_STACK_MB': '2'}, announce=True, timeout=1500)
+                for l2 in out2.get('long', [])[2:]:
+                    i2, k2, _, _ = core.parse_line(l2)
+                    total += 1
+                    if k2 in ('A', 'H', 'P'):
+                        nv += 1
+                        real = idx + 1 + (i2 - 2)
+                        if nv <= 8 and real < len(ops):
+                            res.violation('stack', {'operation': ops[real][0], 'program': ops[real][1][:300], 'profile': label, 'why': 'list operation exhausted a 2 MiB stack or panicked', 'line': l2[:200]})
+                        break
+                break
+    # the same operations at small sizes agree with the model (ties the depth-annotated model functions to the code)
+    small = Case('small')
+    for name, t in ops:
+        small.eval(t.replace(str(N), '50').replace(str(N - 1), '49').replace(str(N - 5), '45') if 'read-long' not in name else "(length '(1 1 1))")
+    differential(res, [small])
+    res.cov['evaluations'] += total
+    res.cov['distinct_nontrivial'] = len(distinct)
+    res.cov['elements'] = N
+    res.cov['rule'] = ('%d list operations (building with cons / a tail-recursive function, length, nth, nthcdr, last, equal incl. unequal and consed lists, printing, %%s/%%S formatting, 16 ways of reporting an error '
+                       'about a list, dolist, seq-*, sort, assoc / alist-get / plist-get on long association and property lists, discarding lists of atoms, pairs and nested lists) on %d elements, and the time-quadratic '
+                       'ones (append, mapcar, seq-filter, backquote splicing, macroexpand, reading a long literal) on %d elements, each in the release and the debug build on a 2 MiB thread stack; '
+                       'oracle: the process survives every operation; the same operations on 50 elements are compared with the model' % (len(ops), N, N2))
+    res.cov['samples'] = [ops[0][1], ops[7][1], ops[13][1]]
+    for d in res.pending:
+        res.violation('disagreement', d, no_input=not oracle_confirms(d))
+    return res.finish(gate)
+
+CHECKS['C18'] = check_C18
